@@ -98,9 +98,17 @@ Definition stdout_hidden (h : hide_req) (async out_given : bool) : bool :=
 Definition stderr_hidden (h : hide_req) (async err_given : bool) : bool :=
   (async || names_stderr h) && negb err_given.
 
+(** When the command really runs under a pty (documented for [Local], options [pty] and
+    [fallback]): a pty was asked for, and either sys.stdin is backed by a descriptor or
+    falling back to plain pipes was switched off.  Otherwise the command talks to two pipes. *)
+Definition pty_in_effect (requested stdin_is_file fallback : bool) : bool :=
+  requested && (stdin_is_file || negb fallback).
+
 (** Judge an observed run: [out_bytes]/[err_bytes] are the complete byte streams
     the command wrote to its stdout / stderr pipe.  Under a pty there is no
     stderr pipe (the kernel merges both into the pty): captured stderr is empty.
+    [pty] is what is IN EFFECT ([pty_in_effect]), not what was asked for: a run that fell
+    back to pipes owes both streams in full.
     [mo]/[me] describe the stream objects the output is forwarded to (advertised
     encoding; recording stream or TextIOWrapper with its own error handler) and
     [got_out_stream]/[got_err_stream] are their contents afterwards: a stream that
